@@ -292,7 +292,15 @@ def run(ctx: Context):
         if "min_happiness" not in fn.params:
             raise AnchorVanished("get_shareholders has no min_happiness parameter")
         use_mut = mutates("self.use_trackers")
-        hg = HappinessGate(fn, {"min_happiness"}, merge_trackers="self.use_trackers",
+        thresholds = {"min_happiness"}
+        # self.min_happiness is the same value when its only binding in the class is `= min_happiness` here
+        binds = [(f, nd) for (f, nd) in cg.attr_stores("min_happiness")
+                 if f.cls is not None and f.cls.name == "Tahoe2ServerSelector"]
+        if binds and all(f.qual == fn.qual for (f, nd) in binds) and all(
+                isinstance(v, ast.Name) and v.id == "min_happiness"
+                for n in cfg.find(stores("self.min_happiness")) for v in [assign_value(n, "self.min_happiness")]):
+            thresholds.add("self.min_happiness")
+        hg = HappinessGate(fn, thresholds, merge_trackers="self.use_trackers",
                            kill=lambda n: suspends(n) or use_mut(n))
 
         def success(n):
@@ -313,7 +321,7 @@ def run(ctx: Context):
             r.violation(fn, fn.loc(n.ast), "server selection can report success without min_happiness <= "
                         "servers_of_happiness(merge_servers(.., self.use_trackers)) holding on the path "
                         "(path: %s)" % w.brief(), w)
-        # self.min_happiness is accepted nowhere here: the parameter is the threshold.  The returned layout:
+        # the returned layout
         fnorm = hg.fnorm
         for n in succ:
             cs = calls_at(n, "returnValue")
@@ -700,7 +708,6 @@ def run(ctx: Context):
         st = idx.func(ENC + ".start")
         r.site(st, None, "Encoder.start chain")
         regs = registrations(st)
-        recvs = {x.recv for x in regs}
         tail = [x for x in regs if x.kind == "pair" and is_self_method(x.target, "done")]
         if not tail:
             r.violation(st, st.loc(), "Encoder.start no longer ends its chain with addCallbacks(self.done, self.err)")
